@@ -120,7 +120,8 @@ def q_sendable(q, sid):
     return (client_initiated(sid) == q._is_client or not uni(sid)) and (sid in q._streams or client_initiated(sid) == q._is_client)
 
 def q_open(q, sid):
-    return implies(sid in q._streams, q._streams[sid].sender._buffer_fin is None and q._streams[sid].sender._reset_error_code is None)
+    "a write on the stream does not trip the sender's assertions: it is discarded (the PEER stopped the stream: STOP_SENDING) or the send half was neither finished nor reset"
+    return implies(sid in q._streams, q._streams[sid].sender.stopped_by_peer or (q._streams[sid].sender._buffer_fin is None and q._streams[sid].sender._reset_error_code is None))
 
 def q_can_write(q, sid):
     "send_stream_data(sid, data, end_stream=False) returns normally, now and after any further such write on any stream"
@@ -625,6 +626,14 @@ R.contract("bytes.decode:ignore", trusted=True, returns="str", params={"a0": "by
            ensures=["str_utf8_ok(result)", "len(str_utf8(result)) <= len(a0)"], note="CPython bytes.decode('utf8', 'ignore')")
 
 # ---------------------------------------------------------------------------------------------------------------- (11)
+# HISTORY 2 (round-3 finding, repaired in /repo): W was STILL breakable by the peer with events handed over in order - the
+# transport resets the send half when it PARSES the STOP_SENDING frame, while the StopSendingReceived event is queued behind
+# the StreamDataReceived events of the same datagram; handling those first, _handle_control_frame (SETTINGS -> encoder
+# stream) and _decode_headers (decoder stream) wrote to the reset stream: AssertionError out of handle_event
+# (tools/repro/c16_write_after_stop_sending.py).  The transport now discards writes on a stream the peer stopped
+# (QuicStreamSender.stopped_by_peer); q_open says so, _handle_stop_sending_frame is OBLIGED to preserve q_open of every
+# stream (contracts/quic_noraise.py), so the only ways left to break W are local API calls (reset_stream / end_stream on
+# a QPACK stream), which the HTTP/3 layer never makes.
 # HISTORY: assumption W (h3_writable) is not an invariant of the system - the peer can break it with a transport frame.
 # On the pinned tree a STOP_SENDING for this endpoint's QPACK decoder stream followed by any HEADERS frame made
 # _decode_headers call send_stream_data on a reset stream: AssertionError escaped H3Connection.handle_event.  Repaired in
